@@ -366,8 +366,14 @@ func (mw *msgWriter) addFiles(files []*File, isAttachment bool) {
 			}
 		}
 		if mw.depth == 0 {
-			for header, val := range file.Header {
-				mw.writeHeader(Header(header), val...)
+			// write the file headers in a stable order (map iteration order is random)
+			headerKeys := make([]string, 0, len(file.Header))
+			for header := range file.Header {
+				headerKeys = append(headerKeys, header)
+			}
+			sort.Strings(headerKeys)
+			for _, header := range headerKeys {
+				mw.writeHeader(Header(header), file.Header[header]...)
 			}
 			mw.writeString(SingleNewLine)
 		}
